@@ -183,7 +183,8 @@ func (s *muxerSegmenter) writeVP9(
 	codec := track.Codec.(*codecs.VP9)
 	randomAccess := false
 
-	if !h.NonKeyFrame {
+	// frames with show_existing_frame carry neither a frame type nor a color config
+	if !h.NonKeyFrame && !h.ShowExistingFrame {
 		randomAccess = true
 
 		if v := h.Width(); v != codec.Width {
